@@ -6,6 +6,7 @@ import (
 	"encoding/json"
 	"fmt"
 	"sort"
+	"strings"
 
 	"jrpcvet/internal/chk"
 )
@@ -24,7 +25,67 @@ type Def struct {
 
 var registry = map[string]*Def{}
 
-func register(d *Def) { registry[d.ID] = d }
+func register(d *Def) {
+	if sh := sharedRules[d.ID]; len(sh) > 0 {
+		var qs []string
+		for q := range sh {
+			qs = append(qs, q)
+		}
+		sort.Strings(qs)
+		var parts []string
+		for _, q := range qs {
+			parts = append(parts, strings.Join(sh[q], ", ")+" (evaluated by "+q+"'s rules)")
+		}
+		d.Explanation += " Shared clauses, each a necessary condition of this property too (a confirmed breakage of this property violates it): " + strings.Join(parts, "; ") + "."
+	}
+	registry[d.ID] = d
+}
+
+// runShared evaluates the clauses property id shares with other properties
+// (sharedRules) and adds their obligations to c.
+func runShared(c *chk.Ctx, id, tier string) { runSharedDepth(c, id, tier, 0) }
+
+func runSharedDepth(c *chk.Ctx, id, tier string, depth int) {
+	sh := sharedRules[id]
+	if len(sh) == 0 {
+		return
+	}
+	// (several obligations may share rule|function|construct — one per return of a function, say:
+	// the site and the verdict tell them apart)
+	keyOf := func(o chk.Obligation) string {
+		return o.Rule + "|" + o.Func + "|" + o.Construct + "|" + o.Site + "|" + fmt.Sprint(o.Status)
+	}
+	have := map[string]bool{}
+	for _, o := range c.Obs {
+		have[keyOf(o)] = true
+	}
+	var qs []string
+	for q := range sh {
+		qs = append(qs, q)
+	}
+	sort.Strings(qs)
+	for _, q := range qs {
+		want := map[string]bool{}
+		for _, r := range sh[q] {
+			want[r] = true
+		}
+		c2 := &chk.Ctx{P: c.P, F: c.F, M: c.M}
+		registry[q].Run(c2, tier)
+		// (a clause q itself borrows may be the one wanted)
+		if depth < 2 {
+			runSharedDepth(c2, q, tier, depth+1)
+		}
+		for _, o := range c2.Obs {
+			k := keyOf(o)
+			if !want[o.Rule] || have[k] {
+				continue
+			}
+			have[k] = true
+			o.Clause = "shared with " + q + ": " + o.Clause
+			c.Obs = append(c.Obs, o)
+		}
+	}
+}
 
 func Lookup(id string) *Def { return registry[id] }
 
